@@ -91,9 +91,11 @@ def compare_real(g, text, cfg):
 
 
 def obligation(item):
-    gi, n, timeout_ms = item
+    gi, n, timeout_ms = item[:3]
     g = corpus_list()[gi]
     cfg = {k: v for k, v in g['cfg'].items() if k != 'autokwd'}
+    if len(item) > 3 and item[3]:
+        cfg['ignore_case'] = True
     res = {'grammar': g['name'], 'n': n, 'queries': {}, 'solver_s': 0.0, 'violations': [], 'mismatch': [],
            'validated': 0, 'twin': None, 'obligations': 0, 'discharged': 0, 'unknown': 0}
     try:
@@ -172,7 +174,7 @@ def obligation(item):
         elif k1 == 'ok' and k2 == 'ok' and not modelcmp.same(modelcmp.canon_real(m1), modelcmp.canon_real(m2)):
             bad = 'models differ: %s' % modelcmp.first_diff(modelcmp.canon_real(m1), modelcmp.canon_real(m2))
         if bad:
-            res['violations'].append({'grammar': g['name'], 'kind': 'input', 'text': text, 'detail': bad})
+            res['violations'].append({'grammar': g['name'], 'kind': 'input', 'text': text, 'detail': bad, 'cfg': cfg})
             break
         res['mismatch'].append({'text': text, 'real': [k1, k2]})
         z.add(inp.block_class(text))
@@ -180,6 +182,22 @@ def obligation(item):
             res['unknown'] += 1
             break
     z.pop()
+    # witness replay of the model clause (what the fingerprints cannot see: the values the model gets):
+    # one witness per accepted class string without glue — the two real models must be equal
+    if res['twin'] == 'sat' and not res['violations']:
+        from ..pegcheck import enumerate_classes
+        texts, exhausted, z2 = enumerate_classes(inp, And(ak, Not(glue), ap), 12, timeout_ms)
+        for k in z.queries:
+            z.queries[k] += z2.queries[k]
+        z.secs += z2.secs
+        for text in texts:
+            k1, m1, k2, m2 = compare_real(g, text, cfg)
+            res['validated'] += 2
+            if k1 == 'ok' and k2 == 'ok' and not modelcmp.same(modelcmp.canon_real(m1), modelcmp.canon_real(m2)):
+                res['violations'].append({'grammar': g['name'], 'kind': 'input', 'text': text, 'cfg': cfg,
+                                          'detail': 'models differ: %s' % modelcmp.first_diff(
+                                              modelcmp.canon_real(m1), modelcmp.canon_real(m2))})
+                break
     res['queries'] = z.queries
     res['solver_s'] = z.secs
     return res
@@ -207,6 +225,8 @@ def main():
     timeout_ms = 60000 if quick else 300000
     gs = corpus_list()
     items = [(gi, n, timeout_ms) for gi in range(len(gs)) for n in range(0, N + 1)]
+    # the same with ignore_case switched on (grammars that do not set it themselves), one length
+    items += [(gi, N - 1, timeout_ms, True) for gi in range(len(gs)) if not gs[gi]['cfg'].get('ignore_case')]
     items.sort(key=lambda it: -it[1])
     results = pmap(obligation, items)
     chk.cov['functions_encoded'] = src_hash(L.TextXVisitor.visit_str_match, L.TextXVisitor.__init__)
@@ -250,6 +270,7 @@ def replay(data):
     g = next(x for x in corpus.ALL if x['name'] == data['grammar'])
     cfg = {k: v for k, v in g['cfg'].items() if k != 'autokwd'}
     if data['kind'] == 'input':
+        cfg = data.get('cfg', cfg)
         k1, m1, k2, m2 = compare_real(g, data['text'], cfg)
         if k1 == 'ok' and k2 == 'syntax':
             return True, 'accepted with autokwd only'
